@@ -493,6 +493,29 @@ def cutRoot (f : Follow) : Node Attr → Node Attr
   | .leaf n k a => .leaf n k a
   | .dir n l r a kids => .dir n l r a (cutKids (f == .always) a.s.dev kids)
 
+/-! ### well-formed worlds
+
+What an observed world looks like (the driver's parser refuses anything else): a plain leaf is
+not a link and not a directory and has one status for both views; a link leaf has the status its
+kind says; a directory node is a directory, or a link resolving to one.  (`foreign` leaves are
+what `cutRoot` makes of directories.) -/
+
+def wfLeaf (k : LeafKind) (a : Attr) : Bool :=
+  match k with
+  | .plain => a.lty != 'l' && a.lty != 'd' && a.sty == a.lty
+  | .linkFile => a.lty == 'l' && a.sty != 'd' && a.sty != 'N' && a.sty != 'L' && a.sty != 'l'
+  | .linkDangling => a.lty == 'l' && a.sty == 'N'
+  | .linkLoop => a.lty == 'l' && (a.sty == 'L' || a.sty == 'd')
+
+def wfDir (l : Bool) (a : Attr) : Bool := a.sty == 'd' && (if l then a.lty == 'l' else a.lty == 'd')
+
+def wfNode : Node Attr → Bool
+  | .leaf _ k a => wfLeaf k a || a.foreign
+  | .dir _ l _ a kids => wfDir l a && wfKids kids
+where wfKids : List (Node Attr) → Bool
+  | [] => true
+  | n :: ns => wfNode n && wfKids ns
+
 /-! ### `process_dir`, `do_find` -/
 
 def refCfg (c : Config) : RefCfg := ⟨c.depthFirst, c.minDepth, c.maxDepth, c.follow⟩
